@@ -233,7 +233,39 @@ fn helper_op(rng: &mut Rng, fresh: bool) -> Op {
 /// A family of related operations, shaped so that state leaking from one call to another would show.
 fn family(rng: &mut Rng, corpus: &Corpus, deep_levels: (usize, usize), out: &mut Vec<Op>) -> &'static str {
     let fresh = rng.chance(1, 4);
-    match rng.weighted(&[14, 14, 10, 8, 8, 8, 6, 6, 5, 5, 6, 2, 6, 6, 6, 3, 6]) {
+    match rng.weighted(&[14, 14, 10, 8, 8, 8, 6, 6, 5, 5, 6, 2, 6, 6, 6, 3, 6, 5]) {
+        17 => {
+            // pairs and triples of extreme numbers through every arithmetic and comparison operator:
+            // the traps of integer arithmetic need *both* operands at an edge (MIN % -1, MIN / -1,
+            // MIN - 1, MAX + 1, 0 / 0, -0.0 against 0) and random atoms rarely meet in pairs
+            // (the first ten are the core: three picks in four come from them, so that every pair of them
+            // meets every operator within a quick batch)
+            let extremes: Vec<Value> = vec![
+                json!(i64::MIN), json!(-1), json!(0), json!(-0.0), json!(1), json!(i64::MAX), json!(u64::MAX), json!(9007199254740993u64), json!(1e308), json!(i64::MIN + 1),
+                json!(2), json!(i64::MAX - 1), json!(-9007199254740993i64), json!(-1e308), json!(5e-324), json!(0.5), json!(1e19), json!(-1e19),
+                json!("-9223372036854775808"), json!("-1"), json!("0"), json!("1e400"), json!(""), json!(null), json!(true), json!([]), json!([-1]),
+            ];
+            let n = rng.range(4, 8);
+            for _ in 0..n {
+                let o = *rng.pick(&["%", "/", "-", "+", "*", "max", "min", "<", "<=", ">", ">=", "==", "!=", "===", "substr", "in", "merge", "cat"]);
+                let pick = |rng: &mut Rng| -> Value { if rng.chance(3, 4) { extremes[rng.below(10)].clone() } else { rng.pick(&extremes).clone() } };
+                let a = pick(rng);
+                let b = pick(rng);
+                let r = match (o, rng.below(4)) {
+                    ("-", 0) => json!({"-": [a]}),
+                    ("substr", _) => json!({"substr": [*rng.pick(&["", "a", "héllo", "日本語テキスト"]), a, b]}),
+                    (_, 1) if ["+", "*", "max", "min", "<", "<=", "cat", "merge"].contains(&o) => {
+                        let c = pick(rng);
+                        json!({ o: [a, b, c] })
+                    }
+                    (_, 2) => json!({ o: [{"var": "a"}, {"var": "b"}] }),
+                    _ => json!({ o: [a.clone(), b.clone()] }),
+                };
+                let d = json!({"a": a, "b": b});
+                out.push(Op::apply(&t(&r), &t(&d), fresh));
+            }
+            "arithmetic-extremes"
+        }
         0 => {
             // same rule x different data (corpus rule)
             let (r, d) = rng.pick(&corpus.cases).clone();
@@ -592,6 +624,54 @@ fn family(rng: &mut Rng, corpus: &Corpus, deep_levels: (usize, usize), out: &mut
             out.push(Op::apply(&r, &t(&gen::vary(rng, &dv)), true));
             "equal-values-distinct-addresses"
         }
+    }
+}
+
+/// Operators and core extreme operands of the systematic sweep (see `extremes_sweep_run`).
+const SWEEP_OPS: &[&str] = &["%", "/", "-", "+", "*", "max", "min", "<", "<=", ">", ">=", "==", "!=", "===", "substr", "in", "merge", "cat"];
+
+fn sweep_core() -> Vec<Value> {
+    vec![json!(i64::MIN), json!(-1), json!(0), json!(-0.0), json!(1), json!(i64::MAX), json!(u64::MAX), json!(9007199254740993u64), json!(1e308), json!(i64::MIN + 1), json!("-1"), json!(null)]
+}
+
+pub const SWEEP_PER_RUN: usize = 36;
+
+pub fn extremes_sweep_runs() -> u64 {
+    let n = SWEEP_OPS.len() * sweep_core().len() * sweep_core().len();
+    ((n + SWEEP_PER_RUN - 1) / SWEEP_PER_RUN) as u64
+}
+
+/// Run `k` of the systematic part of a batch: every operator of `SWEEP_OPS` over every ordered pair of
+/// core extreme operands (one caller, no schedule to speak of: these are input-only outcomes, judged
+/// like any other call). Random pairs of atoms meet an edge pair like (i64::MIN, -1) too rarely.
+pub fn extremes_sweep_run(k: u64) -> E1Run {
+    let core = sweep_core();
+    let c = core.len();
+    let total = SWEEP_OPS.len() * c * c;
+    let mut ops = Vec::new();
+    for idx in (k as usize * SWEEP_PER_RUN)..((k as usize + 1) * SWEEP_PER_RUN).min(total) {
+        let o = SWEEP_OPS[idx / (c * c)];
+        let a = core[(idx / c) % c].clone();
+        let b = core[idx % c].clone();
+        let r = match o {
+            "substr" => json!({"substr": ["héllo", a, b]}),
+            "-" if idx % c == 2 => json!({"-": [a]}),
+            _ => json!({ o: [a, b] }),
+        };
+        ops.push(Op::apply(&t(&r), "null", false));
+    }
+    E1Run {
+        seed: k,
+        threads: vec![ops],
+        stack_kb: vec![2048],
+        strategy: Strategy::Sequential(vec![0]),
+        fault: None,
+        ambient: Ambient::default(),
+        schedule: None,
+        shape: "extremes-sweep".into(),
+        alloc_yield: false,
+        tid_offset: 0,
+        ptrace: None,
     }
 }
 
